@@ -9,6 +9,7 @@ import (
 	"github.com/openziti/foundation/v2/errorz"
 	"github.com/openziti/storage/ast"
 	"github.com/openziti/storage/boltz"
+	"go.etcd.io/bbolt"
 	"verif/explore"
 	rm "verif/refmodel"
 	"verif/world"
@@ -169,6 +170,24 @@ func (w *qWorld) materialise(ctx boltz.MutateContext, ds *rm.DS) error {
 		}
 	}
 	return nil
+}
+
+// committed writes the dataset in one committed transaction, runs fn in a read transaction on the
+// committed pages, and empties the database again (raw bucket delete + index re-initialisation).
+func (w *qWorld) committed(ds *rm.DS, fn func(tx *bbolt.Tx)) error {
+	if err := w.db.Update(nil, func(ctx boltz.MutateContext) error { return w.materialise(ctx, ds) }); err != nil {
+		return err
+	}
+	_ = w.db.View(func(tx *bbolt.Tx) error { fn(tx); return nil })
+	return w.db.Update(nil, func(ctx boltz.MutateContext) error {
+		if err := ctx.Tx().DeleteBucket([]byte("root")); err != nil {
+			return err
+		}
+		h := &errorz.ErrorHolderImpl{}
+		w.people.InitializeIndexes(ctx.Tx(), h)
+		w.places.InitializeIndexes(ctx.Tx(), h)
+		return h.GetError()
+	})
 }
 
 // ---------------------------------------------------------------------------------------------
